@@ -466,7 +466,7 @@ fn worker(ctx: &Ctx, out: &mut Out) {
                             out.class(format!("{:016x}", crate::orch::fnv(&buf)));
                         }
                     }
-                    if out.samples.len() < 3 && case % 1777 == 5 {
+                    if out.samples.len() < 3 && (case % 1777 == 5 || out.samples.is_empty()) {
                         out.sample(json!({"frame": brief(&f), "encoding": show(&enc), "derived_inputs": "all truncations, 12 corruptions, trailing frame, 8 random strings"}));
                     }
                 }
